@@ -384,9 +384,9 @@ def run(tier, seed):
         n = 0
         hosts = set()
         for fn in xmod.defined():
-            sites = [c for c in fn.insts() if c.op == "call" and xmod.callee_cname(c) in COPIES and any(l.get("fn") == "file_full_path" for l in (c.loc or []))]
-            if fn.cname == "file_full_path":
-                sites = [c for c in fn.insts() if c.op == "call" and xmod.callee_cname(c) in COPIES]
+            # every copy in src/extract.c whose source is one of the header's two name strings builds an output name, whatever the function
+            # that does it is called today
+            sites = [c for c in fn.insts() if c.op == "call" and xmod.callee_cname(c) in COPIES and fn.file.endswith("extract.c")]
             if not sites:
                 continue
             hosts.add(fn.cname)
@@ -508,7 +508,7 @@ def run(tier, seed):
                                     f = ("ne", "s[strspn(s, \"/\")]", ord("/"))
                     rep.check(rid, f is not None, "%s: %s(result, p) with *p != '/' (header->%s)" % (fn.cname, xmod.callee_cname(c), from_hdr), c.where(),
                               "facts: %s" % sorted(describe_fact(fn, x) for x in F.at_inst(c))[:8] if f is None else (describe_fact(fn, f) if not isinstance(f[1], str) else "%s != '/'" % f[1]), function="file_full_path", obj="copy-%s" % from_hdr)
-        rep.check(rid, n >= 2 and n % 2 == 0, "both header strings are appended after the skip (in every inlined copy of file_full_path)", "src/extract.c",
+        rep.check(rid, n >= 2, "the header's path and name are copied into output names (sites found)", "src/extract.c",
                   "%d header-derived copy sites in %s" % (n, sorted(hosts)), function="file_full_path", obj="sites")
 
         # ---- R6: directory metadata -----------------------------------------------------------------------------------------
